@@ -15,6 +15,16 @@ CLAIMS = {
          "static analysis: inter-procedural must-lock-sets, lock-order and requires-no-lock rules, result-consumption (pairing on all exits), intra-procedural value derivation for the key, typestate Error/Complete→Done", "§2 C13"),
  "C11": ("Structural necessary conditions of 'de-duplication never wedges or crashes and shares only identical queries': leader finishes exactly once on every exit of both coalescing sites; fields read by followers are written before the wake-up close and the conditional publish decision is atomic with follower registration; shared records written only on the leader path, shared buffers never mutated in place; both keys derive from all documented components (request id, variables hash, headers hash / datasource id, input, headers hash); sharing dominated by query-only eligibility; every wait also selects on the participant's own context; a follower never returns the leader's cancellation verbatim. Does not decide byte equality of responses.",
          "static analysis: exactly-once pairing over all exits (path interpreter with defer replay), publish-before-close dominance, lock-set atomicity, ownership (who-may-write), value derivation for key completeness, guard dominance, select-shape check, context provenance", "§2 C11"),
+ "C07": ("Structural necessary conditions of 'subgraph failures are isolated': every merge into the response tree is dominated by the absence of each failure condition and indexed merges by the entity-count check; error renderers append an error on every non-error return; every nil return of mergeResult is benign/merged/rendered; dependants are skipped before any prepare step, the skip and load errors are recorded (transitivity); plain errgroup joined on all paths; failed single-flight leader releases followers. Does not decide data identity under fault nor request-subset (value level).",
+         "static analysis: guard dominance over all paths of mergeResult / loadPhase / preparePhase (AST path interpreter, type-resolved conditions), must-call on exits, ownership (no errgroup.WithContext), exactly-once pairing", "§2 C07"),
+ "C08": ("Structural necessary conditions of 'fetch execution respects dependencies under every schedule': all state shared by concurrent fetch goroutines is accessed only under DataBuffer.mu (inter-procedural must/may lock sets; the load phase touches none of it); parallel nodes joined, sequences in index order stopping at first error, total node-kind dispatch; post-processing stages wired in the order their contracts require for all three plan kinds; merged fetches carry the union of member dependencies. Does not decide topological correctness of the ordering algorithms.",
+         "static analysis: inter-procedural lock-set analysis with guarded-field tables, join/pairing on exits, dispatch exhaustiveness, stage-order (happens-before on all paths) rules, value derivation", "§2 C08"),
+ "C10": ("Structural necessary conditions of 'well-formed @defer stream that terminates': shared writer/Resolvable/DataBuffer used only under DataBuffer.mu in resolveDeferSingle (render+counter+Flush in one section); counter written only by the two frame writers; exactly one counter update / completed / hasNext per frame with hasNext read after the update; announced and scheduled sets are the same liveChildDescriptors value; Complete() only from a defer registered after the first successful Flush; plain joined errgroup; defer normalization stage order. Does not decide reconstruction equality.",
+         "static analysis: lock-set analysis, ownership (who-may-write), exactly-once counting over all paths, value identity via assignment-only derivation, defer-registration dominance, stage order", "§2 C10"),
+ "C14": ("Structural necessary conditions of 'denied fields never reach the client, denied mutations never reach a subgraph': who-may-call chain to DataSource.Load*, load dominated by !skipLoad, every prepare*Fetch exit gated, authorization before rate limiting, cache gate refuses non-queries with any / queries with all root fields denied; field values walked only after authorizeField allowed, which allows only on documented edges and denies only with an error; authorizePreFetch before every loader start, subscriptions authorized before registration, fail-closed batch gate seeding every (source, coordinate) pair; collector descends unconditionally like the renderer; single source of the protected bit. Does not decide absence of denied bytes in responses.",
+         "static analysis: who-may-call over resolved callees, guard dominance and necessary-conjunct (returns-true-only-if) rules on all paths, sibling agreement, value derivation", "§2 C14"),
+ "C16": ("Structural necessary conditions of 'entities stored only from clean public responses for no longer than allowed; cache failures never fail a request': conjuncts and precedence of caching.TTL on every ok-return; all cleanliness guards dominate item construction; TTL provenance; key/value positional pairing; all-or-nothing lookup; cache errors flow only to the reporter and the store is never called under the data lock; key = entity hash + selection hash taken from offsets recorded between header and footer before the buffer is rewritten; parser arm ↔ decision field agreement against the RFC 9111 directive names. Does not decide transparency over histories nor the header lexer.",
+         "static analysis: necessary-conjunct analysis of boolean results, guard dominance, error-flow (sinks) analysis, lock-set, value derivation and order rules, writer/reader field agreement", "§2 C16"),
 }
 PENDING = "no static rule is armed for this property yet in this revision (structural clauses planned in DESIGN.md §2); the behavioural statement itself quantifies over run-time values that static analysis cannot bound"
 
